@@ -2,8 +2,9 @@
    (Gen/C08Table.v).  [gen_cfg_ok] is the obligation the generated table must meet: every request
    kind of the property's domain is registered by a protocol layer with both callbacks, no
    other layer reacts to its replies, processIqRegistry consumes only result/error and removes
-   the entry BEFORE dispatching the callback (both levels). *)
-From YV Require Import Common.Tac C08.C08Model C08.C08Proofs C08.C08Ping Gen.C08Table.
+   the entry BEFORE dispatching the callback (both levels), and both _sendIq functions put the
+   request into the registry BEFORE handing it down. *)
+From YV Require Import Common.Tac C08.C08Model C08.C08Proofs C08.C08Ping C08.C08Sync Gen.C08Table.
 
 Lemma gen_cfg_ok : cfg_ok gen_cfg = true.
 Proof. vm_compute. reflexivity. Qed.
@@ -61,4 +62,72 @@ Proof.
     try apply ping_error_refuted; try apply group_list_error_refuted;
     try apply group_participants_error_refuted; try apply contact_sync_error_refuted;
     try apply nonreply_consumes_refuted.
+Qed.
+
+(* ---------- histories with deliveries from inside sends (C08Sync.v) ---------- *)
+
+Lemma gen_reg_first : reg_first gen_cfg = true /\ reg_first_iface gen_cfg = true.
+Proof. exact (cfg_ok_reg_first gen_cfg gen_cfg_ok). Qed.
+
+Lemma gen_all_routed : all_routed gen_cfg = true.
+Proof. vm_compute. reflexivity. Qed.
+
+Theorem gen_sync_is_sequential_thm : forall h st,
+  sevents gen_cfg st h = events gen_cfg st (flatten h) /\
+  sfinal gen_cfg st h = final gen_cfg st (flatten h).
+Proof. exact (sflat_thm gen_cfg (proj1 gen_reg_first) (proj2 gen_reg_first) gen_all_routed). Qed.
+
+Theorem gen_sync_app_exactly_once_thm : forall pre k hs he rt sync post,
+  in_domain k = true ->
+  let i := next (sfinal gen_cfg init pre) in
+  shaped i (shape_of k) (map dl sync ++ flatten post) ->
+  app_cbs i (sevents gen_cfg init (pre ++ SApp k hs he rt sync :: post)) =
+  expected_seq i hs he (mkreq i (OApp k)) (Some rt) (map dl sync ++ flatten post).
+Proof. exact (sync_app_exactly_once_retry_thm gen_cfg gen_cfg_ok gen_all_routed). Qed.
+
+Theorem gen_sync_app_registered_iff_outstanding_thm : forall pre k hs he rt sync post,
+  in_domain k = true ->
+  let i := next (sfinal gen_cfg init pre) in
+  shaped i (shape_of k) (map dl sync ++ flatten post) ->
+  registered_iff_outstanding i
+    (armed_after i hs he (Some rt) (map dl sync ++ flatten post))
+    (sfinal gen_cfg init (pre ++ SApp k hs he rt sync :: post)).
+Proof. exact (sync_app_registered_iff_outstanding_thm gen_cfg gen_cfg_ok gen_all_routed). Qed.
+
+Theorem gen_sync_lib_exactly_once_thm : forall pre lk sync post, lk <> LKPing ->
+  let i := next (sfinal gen_cfg init pre) in
+  let s := fst (snd (lib_route gen_cfg lk)) in
+  let e := snd (snd (lib_route gen_cfg lk)) in
+  lib_cbs i (sevents gen_cfg init (pre ++ SLib lk sync :: post)) =
+  expected s e (first_reply i (map dl sync ++ flatten post)) (mkreq i (OLib lk)).
+Proof.
+  exact (sync_lib_exactly_once_thm gen_cfg gen_strict (proj1 gen_reg_first) (proj2 gen_reg_first)
+                                   gen_all_routed).
+Qed.
+
+Theorem gen_sync_lib_registered_iff_outstanding_thm : forall pre lk sync post,
+  let i := next (sfinal gen_cfg init pre) in
+  (lk = LKPing -> shaped i ShPlain (map dl sync ++ flatten post)) ->
+  lib_registered_iff_outstanding i (fst (lib_route gen_cfg lk))
+    (first_reply i (map dl sync ++ flatten post))
+    (sfinal gen_cfg init (pre ++ SLib lk sync :: post)).
+Proof.
+  intros pre lk sync post i H.
+  apply (sync_lib_registered_iff_outstanding_thm gen_cfg gen_strict (proj1 gen_reg_first)
+           (proj2 gen_reg_first) gen_all_routed).
+  intro E. split; [subst lk; vm_compute; reflexivity|exact (H E)].
+Qed.
+
+Theorem gen_sync_libping_forwarded_once_thm : forall pre sync post,
+  let st := sfinal gen_cfg init pre in
+  let i := next st in
+  let s := fst (snd (lib_route gen_cfg LKPing)) in
+  let e := snd (snd (lib_route gen_cfg LKPing)) in
+  shaped i ShPlain (map dl sync ++ flatten post) ->
+  iface_evs i (sevents gen_cfg st (SLib LKPing sync :: post)) =
+  expected_iface s e (first_reply i (map dl sync ++ flatten post)).
+Proof.
+  apply (sync_libping_forwarded_once_thm gen_cfg gen_strict (proj1 gen_reg_first)
+           (proj2 gen_reg_first) gen_all_routed).
+  vm_compute. reflexivity.
 Qed.
